@@ -14,7 +14,7 @@ pub fn def() -> PropDef {
         job_level,
         run_job,
         replay,
-        rule: "chord tables: ALL sets of 1-3 chords over the participant subsets {ab, ac, bc, abc} (thorough: also 4 participants) as defchordsv2 (x release rule {first-release, all-released} x {enabled, all disabled on the held layer, each single chord disabled on the held layer while the others stay enabled}) and as a v1 defchords group (with all singletons defined); every chord has its own output key. Structured histories per table: for EVERY non-empty subset S of the participants (alone, and with a non-chord key z inserted at every position): EVERY permutation of presses, EVERY gap vector from {0,1,T-1,T,T+1}, then EVERY release permutation (1 tick apart; for the all-0 and all-1 press-gap vectors (foreign key absent or pressed last) also 45 ticks apart, which shows which key each output is bound to), then settle. Quick adds five v1 tables over four participants (decomposition shapes; press gaps {0,1}, no foreign key). Generic histories: ALL physically consistent histories of D steps over press/release of a,b,c,z + tick 1 + tick T+1. Oracle ChordSpec: (exact) if S is a defined chord and all of S is pressed within the timeout (boundary T: either), exactly that chord's action is output once and no participant's own action; (none) if S contains no defined chord as a subset, every key's own action is output once, in press order; (always) accounting: the participants of the chords that fired plus the keys whose own action was output are exactly the keys pressed, each once (nothing swallowed, nothing doubled; presses that complete again a chord that is still held — staggered release and re-press of its participants — count as accounted for by it), own actions of non-chord keys keep their order; with the chords disabled on the active layer no chord fires; the chord action goes up no later than T+8+2*(number of events) ticks (processing latency of queued releases) after the last participant's release, for all-released — and for a v1 chord with a single-key action that fired for exactly the pressed set (documented v1 release behaviour) — not before it, for first-release within T+8 ticks of the first release; nothing is held after settle; a key whose own action was output (alone or as a decomposed part) goes up no later than the latency bound after THAT key's release.",
+        rule: "chord tables: ALL sets of 1-3 chords over the participant subsets {ab, ac, bc, abc} (thorough: also 4 participants) as defchordsv2 (x release rule {first-release, all-released} x {enabled, all disabled on the held layer, each single chord disabled on the held layer while the others stay enabled}) and as a v1 defchords group (with all singletons defined); every chord has its own output key. Structured histories per table: for EVERY non-empty subset S of the participants (alone, and with a non-chord key z inserted at every position): EVERY permutation of presses, EVERY gap vector from {0,1,T-1,T,T+1} (quick: {0,1,T+1} when the non-chord key is part of the history), then EVERY release permutation (1 tick apart; for the all-0 and all-1 press-gap vectors (foreign key absent or pressed last) also 45 ticks apart, which shows which key each output is bound to), then settle. Quick adds five v1 tables over four participants (decomposition shapes; press gaps {0,1}, no foreign key). Generic histories: ALL physically consistent histories of D steps over press/release of a,b,c,z + tick 1 + tick T+1. Oracle ChordSpec: (exact) if S is a defined chord and all of S is pressed within the timeout (boundary T: either), exactly that chord's action is output once and no participant's own action; (none) if S contains no defined chord as a subset, every key's own action is output once, in press order; (always) accounting: the participants of the chords that fired plus the keys whose own action was output are exactly the keys pressed, each once (nothing swallowed, nothing doubled; presses that complete again a chord that is still held — staggered release and re-press of its participants — count as accounted for by it), own actions of non-chord keys keep their order; with the chords disabled on the active layer no chord fires; the chord action goes up no later than T+8+2*(number of events) ticks (processing latency of queued releases) after the last participant's release, for all-released — and for a v1 chord with a single-key action that fired for exactly the pressed set (documented v1 release behaviour) — not before it, for first-release within T+8 ticks of the first release; nothing is held after settle; a key whose own action was output (alone or as a decomposed part) goes up no later than the latency bound after THAT key's release.",
         assumptions: &["v1 release timing beyond 'not later than all participants released' is documented as inconsistent and not checked", "chords-v2-min-idle (5 ticks after a non-chord activation) makes chord firing optional within that window in generic histories; accounting still holds"],
         required_level,
         min_outcomes: 3,
@@ -147,7 +147,8 @@ fn jobs(tier: Tier) -> &'static Vec<Job> {
         let mut v = vec![];
         for t in tables(tier) {
             if t.nparts == 3 && t.disabled == 0 && !(t.v2 && t.first_release && tier == Tier::Quick) {
-                v.push(Job { table: t.clone(), generic_depth: Some(if tier == Tier::Quick { 5 } else { 6 }), level: 0 });
+                // quick: depth 5 for tables of one or two chords, depth 4 for three-chord tables
+                v.push(Job { table: t.clone(), generic_depth: Some(if tier == Tier::Quick { if t.chords.len() >= 3 { 4 } else { 5 } } else { 6 }), level: 0 });
             }
         }
         for t in tables(tier) {
@@ -329,7 +330,7 @@ fn judge_structured(t: &Table, presses: &[(usize, u64)], releases: &[(usize, u64
     None
 }
 
-fn run_structured(t: &Table, st: &mut Stats) -> Vec<Violation> {
+fn run_structured(t: &Table, quick: bool, st: &mut Stats) -> Vec<Violation> {
     let cfg = t.cfg();
     let mut found: Vec<Violation> = vec![];
     let codes: Vec<u16> = PART[..t.nparts].iter().map(|k| kc(k)).collect();
@@ -345,6 +346,9 @@ fn run_structured(t: &Table, st: &mut Stats) -> Vec<Violation> {
                 if let Some(z) = zpos {
                     order.insert(z, 9);
                 }
+                // quick tier: with the foreign key in the history the press gaps are drawn from {0, 1, T+1}
+                let gaps_z = [0u32, 1, T + 1];
+                let gaps: &[u32] = if quick && zpos.is_some() && t.light == 0 { &gaps_z[..] } else { gaps };
                 // gap vectors for presses after the first
                 let ng = order.len() - 1;
                 let mut gv = vec![0usize; ng];
@@ -526,7 +530,7 @@ fn run_job(tier: Tier, idx: usize, st: &mut Stats) {
     }
     st.configs_accepted += 1;
     let found = match j.generic_depth {
-        None => run_structured(&j.table, st),
+        None => run_structured(&j.table, tier == Tier::Quick, st),
         Some(d) => run_generic(&j.table, d, st),
     };
     if idx % 23 == 0 {
